@@ -397,6 +397,65 @@ def run(ctx: Ctx):
         if not (np.shape(gotd[0]) == np.shape(wantd[0]) and same_bits(gotd[0], wantd[0]) and same_bits(gotd[1], wantd[1])):
             ctx.violation("CphotAng.__call__", "batch-differs-from-one-at-a-time", "a batch that lists every shower three times (same ground site): " + describe_mismatch(gotd, wantd),
                           {"batch": nd, "scheduler": spec_name, "distinct_showers": nd // 3})
+    # ---- 3e. the kernel object as the worker processes see it (a pickled copy): a detector altitude other than the 525 km
+    # reference, given at construction or assigned afterwards, must reach the workers
+    import pickle
+    nk = 24
+    evk = tuple(a[:nk].copy() for a in ev)
+    for how in ("constructed at 33 km", "built at 525 km, detector_altitude assigned 33 km afterwards"):
+        if how.startswith("constructed"):
+            k33 = cphotang.CphotAng(np.float64(33.0))
+        else:
+            k33 = cphotang.CphotAng(np.float64(525.0))
+            k33.detector_altitude = np.float64(33.0)
+        ref33 = ref_arrays(reference(k33, evk), nk)
+        ctx.case(("pickled-kernel", how)); ctx.count("pickled_kernel_runs")
+        try:
+            kcopy = pickle.loads(pickle.dumps(k33))
+            got_c = ref_arrays(reference(kcopy, evk), nk)
+            with quiet(), dask.config.set(scheduler="processes", num_workers=2):
+                got_p = k33(*evk, None)
+        except Exception as ex:  # noqa
+            ctx.violation("CphotAng.__call__", "unexpected-exception", f"kernel {how}: {type(ex).__name__}: {str(ex)[:100]}", {"kernel": how})
+            continue
+        for label, got_ in (("a pickled copy of the kernel", got_c), ("the batch under the process scheduler", got_p)):
+            if not (same_bits(got_[0], ref33[0]) and same_bits(got_[1], ref33[1])):
+                ctx.violation("CphotAng.__call__", "batch-differs-from-one-at-a-time",
+                              f"kernel {how}: {label} does not give the results of the object itself: " + describe_mismatch(got_, ref33),
+                              {"kernel": how, "evaluated_by": label, "batch": nk})
+                break
+    # ---- 3f. the interpreter's optimisation level is not part of the contract: with assertions compiled away (python -O) a failure
+    # inside one event must still surface as an error of the batch call
+    import os as _os
+    import subprocess
+    import sys as _sys
+    code = "\n".join([
+        "import sys, warnings; warnings.filterwarnings('ignore')",
+        "import numpy as np, dask",
+        "sys.path.insert(0, %r)" % str(VERIF / "harness"),
+        "import sched as xs",
+        "from nuspacesim.simulation.eas_optical.cphotang import CphotAng",
+        "k = CphotAng(np.float64(525.0)); n = 6",
+        "ev = (np.full(n, 0.2), np.full(n, 3.0), np.full(n, 1.0), np.arange(n, dtype=float), np.zeros(n))",
+        "out = []",
+        "for exc in ('StopIteration', 'ValueError'):",
+        "    try:",
+        "        with dask.config.set(scheduler='synchronous'):",
+        "            r = k(*ev, xs.RaisingCloud(3, exc))",
+        "        out.append(exc + ':returned:' + str(len(np.atleast_1d(r[0]))))",
+        "    except BaseException as e:",
+        "        out.append(exc + ':raised')",
+        "print('RESULT ' + ' '.join(out))"])
+    env = dict(_os.environ)
+    env["PYTHONPATH"] = str(REPO / "src") + _os.pathsep + env.get("PYTHONPATH", "")
+    pr = subprocess.run([_sys.executable, "-O", "-c", code], capture_output=True, text=True, env=env, timeout=600)
+    line = next((l_ for l_ in pr.stdout.splitlines() if l_.startswith("RESULT ")), "")
+    ctx.case(("python -O",)); ctx.count("optimised_interpreter_runs")
+    if "returned" in line:
+        ctx.violation("CphotAng.__call__", "failure-swallowed", "under `python -O` (assertions compiled away) an event that raises inside the kernel does not make the batch call fail: " + line[7:],
+                      {"interpreter": "python -O", "batch": 6, "fail_at": 3, "outcome": line[7:]})
+    elif not line:
+        ctx.notes.append("python -O probe produced no result: " + (pr.stderr.strip()[-200:] or "no output"))
     # ---- 3d. production-size batches (thousands of events, tens of partitions) through the REAL batch entry point with the
     # per-event evaluation replaced by a cheap function of the event: result i must be the result of event i
     import probekernel
